@@ -61,7 +61,7 @@ class Job:
         self.max_err = 0.0
         self.failures = []  # (size, path, reason)
         self.harness_error = None
-        self.budget = sub.soft_budget[self.ti]
+        self.budget = float(os.environ.get("VERIF_SOFT_BUDGET") or sub.soft_budget[self.ti])  # override: harness self-test only
         self.cur_path = None
         self.steps = 0
         self.step_rejects = 0
@@ -233,9 +233,11 @@ class Job:
                 super().__init__()
                 self.case = None
                 self.state = None
-                self.skip = job.over_budget() and not job.failures
-                if self.skip:
-                    job.skipped_budget += 1
+                self.skip = False
+                if job.over_budget() and not job.failures:
+                    # stop generating: merely skipping the body would make the enabled rules (preconditions) depend on
+                    # the wall clock, which Hypothesis reports as FlakyStrategyDefinition
+                    raise _BudgetStop()
 
             @initialize(init=spec.init)
             def _init(self, init):
@@ -336,6 +338,8 @@ class Job:
         s = settings(s, stateful_step_count=max_steps)
         try:
             run_state_machine_as_test(hypothesis.seed(self.hyp_seed())(Machine), settings=s)
+        except _BudgetStop:
+            self.skipped_budget += max(1, int(self.sub.examples[self.ti]) - self.executed - self.rejected)
         except Violation:
             pass
         except HarnessError:
@@ -393,6 +397,11 @@ class Job:
             "exhaustive": bool(self.sub.exhaustive),
             "mode": "enum" if self.sub.enum else ("machine" if self.sub.machine else "given"),
         }
+
+
+class _BudgetStop(KeyboardInterrupt):
+    """Raised inside a state machine when the soft budget is used up; not an Exception, so Hypothesis lets it through
+    without treating it as a failing example."""
 
 
 def replay_case(sub, case, job=None):
